@@ -132,7 +132,7 @@ impl<R> TileManager<R> {
 
     fn push_entry(entries: &mut Vec<Entry>, tile_id: u64, offset: u64, length: u32) {
         if let Some(last) = entries.last_mut() {
-            if tile_id == last.tile_id + u64::from(last.run_length)
+            if last.tile_id.checked_add(u64::from(last.run_length)) == Some(tile_id)
                 && last.offset == offset
                 && last.length == length
             {
